@@ -24,6 +24,17 @@ type c20Case struct {
 var c20Symbols = []string{"sa", "sb", "ia", "ib", "fa", "ba", "ta", "boss", "home", "roles", "nums", "places", "peers", "tags"}
 
 // buildC20Store builds the people store with the drawn publicity, using only exported configuration API.
+// buildC20Child layers a child store on the parent; it inherits symbols and their publicity through GrantSymbols.
+func buildC20Child(parent *boltz.BaseStore[boltz.Entity]) *boltz.BaseStore[boltz.Entity] {
+	child := boltz.NewBaseStore(boltz.StoreDefinition[boltz.Entity]{
+		Parent:       parent,
+		BasePath:     []string{"ext"},
+		ParentMapper: func(e boltz.Entity) boltz.Entity { return e },
+	})
+	parent.GrantSymbols(child)
+	return child
+}
+
 func buildC20Store(pub map[string]bool) *boltz.BaseStore[boltz.Entity] {
 	def := boltz.StoreDefinition[boltz.Entity]{EntityType: "people", BasePath: []string{"application"}}
 	p := boltz.NewBaseStore(def)
@@ -74,7 +85,7 @@ func genC20(t *rapid.T) c20Case {
 	}
 	q := kit.QuerySpec{Kind: "people"}
 	if rapid.IntRange(0, 9).Draw(t, "hasPred") > 0 {
-		q.Pred = kit.GenExpr(t, "p", "people", rapid.IntRange(1, 3).Draw(t, "depth"), &kit.GenOpts{NoDotted: true, SelfLinks: true,
+		q.Pred = kit.GenExpr(t, "p", "people", rapid.IntRange(1, 3).Draw(t, "depth"), &kit.GenOpts{NoDotted: true, SelfLinks: true, SubSort: c02SortSyms,
 			Boost: map[string]int{"subcount": 6, "subempty": 6, "setfn": 2, "count": 2, "isempty": 2}})
 	}
 	if rapid.IntRange(0, 2).Draw(t, "hasSort") == 0 {
@@ -131,6 +142,9 @@ func referenced(q *kit.QuerySpec) map[string][]string {
 				case e.L.Sub != nil:
 					add(e.L.Sym, pos+"sub-query-link")
 					walk(e.L.Sub, true)
+					for _, k := range e.L.SubSort {
+						add(k.Sym, "sub-query/sort")
+					}
 				case e.L.Fn != "":
 					add(e.L.Sym, pos+"setfn:"+e.L.Fn+":"+e.Op)
 				case e.Op == "isempty":
@@ -175,6 +189,15 @@ func runC20(c c20Case) kit.Result {
 	}
 	sort.Strings(nonPublic)
 	verr := boltz.ValidateSymbolsArePublic(q, store)
+	// a child store inherits the parent's symbols with their publicity: it must give the same verdict
+	child := buildC20Child(store)
+	if cq, cerr := ast.Parse(child, text); cerr != nil {
+		res.Err = fmt.Errorf("query %s accepted by the parent store's parser but rejected through the child store: %v", text, cerr)
+		return res
+	} else if cverr := boltz.ValidateSymbolsArePublic(cq, child); (cverr == nil) != (verr == nil) {
+		res.Err = fmt.Errorf("query %s: public-symbol validation says %v on the parent store and %v on a child store that inherited its symbols", text, verr, cverr)
+		return res
+	}
 	if len(nonPublic) == 0 {
 		if verr != nil {
 			res.Err = fmt.Errorf("query %s references only public symbols %v but was rejected: %v", text, keys(refs), verr)
